@@ -135,6 +135,24 @@ def gen_lines(rng, n):
     return out
 
 
+PERT_CHARS = ["\x00", "\x01", "\x02", "\x07", "\x08", "\x0b", "\x0c", "\x0e", "\x1b", "\x1c", "\x1f", "\x7f", "\x85", "\xa0", "\xad",
+              "\u200b", "\u2028", "\ufeff", "\udc80", "\udcff"]
+PERT_BASES = ["GET /x HTTP/1.0", "HEAD / HTTP/1.1", "GET /wap/a HTTP/1.0", "localhost /x 0", "h /a.txt 12", "gemini://h/p",
+              "/a.txt\t+", "/a.txt\t!", "/d\t$", "/a.txt\tq\t+", "/a.txt"]
+
+
+def perturbed_lines(rng, tier):
+    out = []
+    for base in PERT_BASES:
+        cut = max(base.rfind(" "), base.rfind("\t")) + 1          # start of the last word
+        places = [0, 1, cut, max(cut - 1, 0), len(base), len(base) - 1]
+        for ch in PERT_CHARS:
+            chosen = places if tier == "thorough" else rng.sample(places, 2)
+            for at in chosen:
+                out.append(base[:at] + ch + base[at:] + "\r\n")
+    return out
+
+
 def gen_headers(rng):
     k = rng.randrange(6)
     acc = rng.choice(["Accept", "accept", "ACCEPT", "Accept ", "AcceKpt"])
@@ -170,6 +188,10 @@ def run(tier):
     # upper-case methods other than GET/HEAD and other HTTP look-alikes must still be claimed by somebody
     lines[14:20] = ["POST / HTTP/1.1\r\n", "OPTIONS * HTTP/1.0\r\n", "CONNECT h:1 HTTP/1.1\r\n", "PUT /x HTTP/2\r\n", "DELETE /a HTTP/1.0\r\n",
                     "TRACE / HTTP/1.1\r\n"]
+    # every documented shape with ONE foreign character put in at several places (start, inside the first word,
+    # before the last word, end): control characters, DEL, C1 / no-break / zero-width / BOM / soft hyphen, undecodable
+    # bytes.  A line that has a shape only after such a character is taken out does not have it.
+    lines += perturbed_lines(rng, tier)
     cases = []
     for i, line in enumerate(lines):
         tls = rng.random() < 0.4
